@@ -55,8 +55,8 @@ AllExprs ==
   \cup {Op(a) \o " " \o BinOps[o] \o " " \o b : o \in DOMAIN BinOps, a \in CS, b \in CS}
   \cup {UnOps[o] \o a : o \in DOMAIN UnOps, a \in Both(KS)}
   \cup {"(" \o a \o ").count()" : a \in Both(KS)}
-  \cup {"(" \o a \o ")." \o Mem1[m] \o "(" \o b \o ")" : m \in DOMAIN Mem1, a \in Both(KS), b \in CS}
-  \cup {"(" \o a \o ")." \o Mem2[m] \o "(" \o b \o ", " \o c \o ")" : m \in DOMAIN Mem2, a \in KS, b \in {"0", "(-1)", "int()", "null", "9223372036854775807", "2.5"}, c \in CS}
+  \cup {"(" \o a \o ")." \o Mem1[m] \o "(" \o b \o ")" : m \in DOMAIN Mem1, a \in Both(KS), b \in CS \cup {"1", "2", "3"}}
+  \cup {"(" \o a \o ")." \o Mem2[m] \o "(" \o b \o ", " \o c \o ")" : m \in DOMAIN Mem2, a \in KS, b \in {"0", "1", "2", "3", "(-1)", "int()", "null", "9223372036854775807", "2.5"}, c \in CS}
   \cup {"(" \o a \o ")@" \o r : a \in Both(KS), r \in {"0", "1", "2", "99", "4294967297", "99999999999999999999"}}
   \cup {"(" \o a \o ").set@" \o r \o "(" \o b \o ")" : a \in KS, r \in {"0", "1", "3", "99999999999999999999"}, b \in CS}
 Exprs == {e \in AllExprs : ~Alloc(e)}
@@ -67,7 +67,12 @@ Chunk == 50
 Seeds == <<
   << Let("T", Call("tab", <<I(2), I(1)>>)), For("I", I(1), I(3), I(1), "asc", <<Forall("E", V("T"), "desc", <<Let("E", Bin("+", V("E"), V("I")))>>), If(Bin("==", V("I"), I(2)), <<Continue>>, <<Break>>)>>), PrintS(<<Mem(V("T"), "at", <<I(0)>>)>>) >>,
   << Func("F", <<"A", "B">>, <<Begin(<<Return(Bin("/", V("A"), V("B")))>>, <<When("DIVIDE_BY_ZERO", <<Return(I(0))>>), When("OTHERS", <<RaiseS("E2")>>)>>)>>), PrintS(<<UCall("F", <<I(4), I(0)>>), Str("x\"y")>>), Return(Item(Call("tup", <<I(1), Str("a")>>), 2)) >>,
-  << Let("S", Str("abc")), For("K", I(1), I(2), NoExpr, "auto", <<Do(Mem(V("S"), "concat", <<Str("z")>>))>>), LetN("N", TDec), IfN(<<[c |-> Call("isnull", <<V("N")>>), b |-> <<PutS(<<V("S")>>)>>]>>, <<Nop>>), Do(SetAt(Call("tup", <<I(1), D(5)>>), 1, I(2))) >>
+  << Let("S", Str("abc")), For("K", I(1), I(2), NoExpr, "auto", <<Do(Mem(V("S"), "concat", <<Str("z")>>))>>), LetN("N", TDec), IfN(<<[c |-> Call("isnull", <<V("N")>>), b |-> <<PutS(<<V("S")>>)>>]>>, <<Nop>>), Do(SetAt(Call("tup", <<I(1), D(5)>>), 1, I(2))) >>,
+  \* several functions, two of them redefined afterwards (the first-declared one and an overload), then every one called:
+  \* statement at a time, an edit inside a redefinition is a rejected declaration followed by calls
+  << Func("F", <<"A">>, <<Return(Bin("+", V("A"), I(1)))>>), Func("G", <<"A">>, <<Return(Bin("*", V("A"), I(2)))>>), Func("G", <<"A", "B">>, <<Return(Bin("-", V("A"), V("B")))>>),
+     Func("F", <<"A">>, <<Return(Bin("+", V("A"), I(10)))>>), Func("G", <<"A">>, <<Return(Bin("*", V("A"), I(3)))>>),
+     PrintS(<<UCall("F", <<I(1)>>)>>), PrintS(<<UCall("G", <<I(2)>>)>>), PrintS(<<UCall("G", <<I(5), I(3)>>)>>) >>
 >>
 Garbage == <<")", "end", "@", "loop", "\"", "0x", "function", ";", ".", "(", "**", "/*", "//", "#", "begin", "exception", "when", ":", ",", "99999999999999999999", "null", "$">>
 Edits(tk) ==
@@ -78,11 +83,17 @@ Edits(tk) ==
   \cup UNION {{SubSeq(tk, 1, k - 1) \o <<Garbage[g]>> \o SubSeq(tk, k + 1, Len(tk)) : g \in (IF Thorough THEN DOMAIN Garbage ELSE {1 + (k % Len(Garbage)), 1 + ((k * 7) % Len(Garbage))})} : k \in 1..Len(tk)}
 EditTexts == UNION {{Text(e) : e \in Edits(Tokens(Seeds[s]))} : s \in DOMAIN Seeds}
 EditSeq == SetToSeq(EditTexts)
+\* the same edits inside ONE top-level statement, every statement on a line of its own: statement at a time, the
+\* statements after the damaged one are still compiled and run (a rejected declaration followed by calls, ...)
+LineTexts(seed) ==
+  UNION {{Join([j \in DOMAIN seed |-> IF j = i THEN Text(e) ELSE Text(Tokens(<<seed[j]>>))], "\n") : e \in Edits(Tokens(<<seed[i]>>))} : i \in DOMAIN seed}
+LineSeq == SetToSeq(UNION {LineTexts(Seeds[s]) : s \in DOMAIN Seeds})
 SpliceBytes == <<0, 1, 9, 13, 27, 34, 35, 39, 47, 92, 127, 128, 195, 255>>
 
 VARIABLE p
 Init == p \in {[k |-> "V", c |-> c] : c \in 0..((Len(ExprSeq) - 1) \div Chunk)}
               \cup {[k |-> "E", c |-> c] : c \in 0..((Len(EditSeq) - 1) \div Chunk)}
+              \cup {[k |-> "L", c |-> c] : c \in 0..((Len(LineSeq) - 1) \div Chunk)}
               \cup {[k |-> "B", s |-> s, b |-> b] : s \in DOMAIN Seeds, b \in DOMAIN SpliceBytes}
 Next == UNCHANGED p
 Lo(c) == c * Chunk + 1
@@ -98,6 +109,10 @@ Scenario(q) ==
                             << [op |-> "exec", ctx |-> 2 * j, free |-> TRUE, text |-> EditSeq[Lo(q.c) + j - 1]],
                                [op |-> "step", ctx |-> 2 * j + 1, free |-> TRUE, text |-> EditSeq[Lo(q.c) + j - 1]] >>])
                     \o (IF q.c % 8 = 0 THEN [j \in 1..(Hi(q.c, Len(EditSeq)) - Lo(q.c) + 1) |-> [op |-> "cli", mode |-> "file", free |-> TRUE, text |-> EditSeq[Lo(q.c) + j - 1], args |-> <<>>]] ELSE <<>>)]
+    [] q.k = "L" ->
+         [prop |-> "C01", key |-> "L",
+          steps |-> [j \in 1..(Hi(q.c, Len(LineSeq)) - Lo(q.c) + 1) |-> [op |-> "step", ctx |-> j, free |-> TRUE, text |-> LineSeq[Lo(q.c) + j - 1]]]
+                    \o (IF q.c % 8 = 0 THEN [j \in 1..(Hi(q.c, Len(LineSeq)) - Lo(q.c) + 1) |-> [op |-> "cli", mode |-> "inter", free |-> TRUE, text |-> LineSeq[Lo(q.c) + j - 1] \o "\n", args |-> <<>>]] ELSE <<>>)]
     [] q.k = "B" ->
          LET t == Render(Seeds[q.s]) IN
          [prop |-> "C01", key |-> "B",
